@@ -102,6 +102,24 @@ VF_HARNESS(eq_order_aliased) {   // both operands view the SAME storage (possibl
   check_pair(ma, sa, g_a, mb, sb, g_a);      // mutable operands (a different overload)
   vf_reach("eq_order_aliased");
 }
+VF_HARNESS(eq_rebased) {   // operands with index bases: equal iff same extensions (sizes AND bases: "equal elements at every index tuple") and equal elements
+  symbolic_contents(g_a); symbolic_contents(g_b);
+  Spec<D> sa = arbitrary_spec<D>(1, 1, MEMSZ2); Spec<D> sb = arbitrary_spec<D>(1, 1, MEMSZ2);
+  auto const a = view_of<D, int>(sa, g_a); auto const b = view_of<D, int>(sb, g_b);
+  bool same_bases = true;
+#pragma unroll
+  for(int k = 0; k < D; ++k) same_bases = same_bases && sa.d[k].first == sb.d[k].first;
+  Spec<D> za = sa; Spec<D> zb = sb;     // zero-based twins for the element oracle
+#pragma unroll
+  for(int k = 0; k < D; ++k) { za.d[k].first = 0; zb.d[k].first = 0; }
+  bool const eq = (a == b);
+  vf_assert((a != b) == !eq, "a != b is the negation of a == b");
+  vf_assert(eq == (same_bases && ora_eq(za, g_a, zb, g_b)), "a == b iff same extensions (index bases included) and equal elements at every index tuple");
+  vf_assert((b == a) == eq, "== is symmetric");
+  auto ma = view_of<D, int>(sa, g_a); auto mb = view_of<D, int>(sb, g_b);
+  vf_assert((ma == mb) == eq && (ma != mb) == !eq, "mutable operands agree with const ones");
+  vf_reach("eq_rebased");
+}
 VF_HARNESS(order_views) {
   symbolic_contents(g_a); symbolic_contents(g_b);
   Spec<D> sa = arbitrary_spec<D>(1, 0, MEMSZ2); Spec<D> sb = arbitrary_spec<D>(1, 0, MEMSZ2);
